@@ -44,6 +44,16 @@ def install_lowrank_stubs():
 
   ds._low_rank_root = stub_low_rank
 
+  def stub_fd(new_grad, p, rank, ridge_epsilon=1e-6, error_tolerance=1e-6, relative_matrix_epsilon=True, decay=1.0,
+              padding_start=None, prev=None, generate_training_metrics=False, generate_fd_metrics=False):
+    n = new_grad.shape[0]
+    pd = ds._precond_dim(rank, n)
+    outs = stubs.stub_call('fdroot', [((n, pd), new_grad.dtype), ((), new_grad.dtype)], new_grad, prev,
+                           jnp.asarray(p, jnp.int32), jnp.asarray(padding_start, jnp.int32))
+    return outs[0], ds.TrainingMetrics(inverse_pth_root_errors=outs[1])
+
+  ds._fd_update_root = stub_fd
+
 
 def ds_tasks(tier):
   out = []
@@ -62,6 +72,10 @@ def ds_tasks(tier):
   # compressed preconditioner representation (low rank): dims must exceed |r|+2
   for graft in (('SGD', 'RMSPROP') if tier == 'quick' else dsh.GRAFTS[:-1]):
     out.append(dict(kind='ds', mode='compressed', graft=graft, shape=[5, 2], block=8, start=1, skip=False))
+  # frequent-directions sketched and int16-quantized preconditioner representations
+  for graft in (('RMSPROP',) if tier == 'quick' else ('SGD', 'RMSPROP', 'ADAGRAD_NORMALIZED', 'SQRT_N')):
+    out.append(dict(kind='ds', mode='fd', graft=graft, shape=[5, 2], block=8, start=1, skip=False))
+    out.append(dict(kind='ds', mode='quantized', graft=graft, shape=[2, 2], block=4, start=1, skip=False))
   return out
 
 
@@ -74,6 +88,10 @@ def ds_cfg(t, graft):
     c['skip_dim_gt'] = 2
   if t['mode'] == 'compressed':
     c['compression_rank'] = 1
+  if t['mode'] == 'fd':
+    c.update(compression_rank=1, frequent_directions=True, reuse_preconditioner=True, q=2, s=2)
+  if t['mode'] == 'quantized':
+    c.update(batch_axis_name='batch', memory_reduction=True)
   return dsh.full_cfg(c)
 
 
@@ -82,7 +100,7 @@ def ds_work(t):
   shape = tuple(t['shape'])
   tag = f"DS|{t['mode']}|{'x'.join(map(str, shape))}|graft={t['graft']},start={t['start']},skip={t['skip']}"
   dsh.install_root_stub()
-  if t['mode'] == 'compressed':
+  if t['mode'] in ('compressed', 'fd'):
     install_lowrank_stubs()
   params = {'p0': jnp.zeros(shape, jnp.float32)}
   ctx = Ctx()
@@ -91,10 +109,18 @@ def ds_work(t):
   for graft in (t['graft'], 'NONE'):
     c = ds_cfg(t, graft)
     opt = dsh.make_opt(c)
-    tr, _ = dsh.trace_update(opt, params)
-    leaves = tr.sym_inputs(pool=pool)
-    I = Interp(ctx)
-    upd, new = tr.run(I, leaves)
+    if t['mode'] == 'quantized':
+      from ..symjax.spmd import eval_spmd
+      tr, _ = dsh.trace_update(opt, params, axis_env=[('batch', 1)])
+      leaves = tr.sym_inputs(pool=pool)
+      outs, interps = eval_spmd(tr.jaxpr.jaxpr, tr.jaxpr.consts, [leaves], 1, ctx_factory=lambda d: ctx)
+      I = interps[0]
+      upd, new = tr.unflatten_out(outs[0])
+    else:
+      tr, _ = dsh.trace_update(opt, params)
+      leaves = tr.sym_inputs(pool=pool)
+      I = Interp(ctx)
+      upd, new = tr.run(I, leaves)
     runs[graft] = (c, tr, leaves, upd, new, I)
   c, tr, leaves, upd, new, I = runs[t['graft']]
   u = upd['p0'].reshape(-1)
@@ -194,7 +220,9 @@ def ds_concrete(t, seed=0, T=6):
   ds = dsh.ds_module()
   saved = None
   if getattr(ds, '_vp_lowrank_stubbed', False):
-    return None  # compressed mode replays need the real routine; handled in a fresh process
+    return None  # compressed / fd mode replays need the real routine; handled in a fresh process
+  if t['mode'] == 'quantized':
+    return quantized_concrete(t, seed, T)
   try:
     shape = tuple(t['shape'])
     c = ds_cfg(t, t['graft'])
@@ -233,9 +261,44 @@ def ds_concrete(t, seed=0, T=6):
     dsh.install_root_stub()
 
 
+def quantized_concrete(t, seed=0, T=6):
+  """int16-quantized mode needs pmap: real optimizers (graft X and NONE) on one device"""
+  shape = tuple(t['shape'])
+  c, c0 = ds_cfg(t, t['graft']), ds_cfg(t, 'NONE')
+  opt, opt0 = dsh.make_opt(c), dsh.make_opt(c0)
+  devs = jax.devices()[:1]
+  rep = lambda x: jax.tree_util.tree_map(lambda a: jnp.stack([jnp.asarray(a)] * len(devs)), x)
+  rng = np.random.RandomState(seed)
+  p = {'p0': jnp.asarray(rng.randn(*shape), jnp.float32)}
+  st = jax.pmap(opt.init, axis_name='batch', devices=devs)(rep(p))
+  st0 = jax.pmap(opt0.init, axis_name='batch', devices=devs)(rep(p))
+  up, up0 = jax.pmap(opt.update, axis_name='batch', devices=devs), jax.pmap(opt0.update, axis_name='batch', devices=devs)
+  diag = np.zeros(shape)
+  for step in range(T):
+    g = rng.randn(*shape).astype(np.float32)
+    u, st = up(rep({'p0': jnp.asarray(g)}), st, rep(p))
+    u0, st0 = up0(rep({'p0': jnp.asarray(g)}), st0, rep(p))
+    u = np.asarray(u['p0'][0], np.float64).reshape(-1)
+    u0 = np.asarray(u0['p0'][0], np.float64).reshape(-1)
+    gs, diag = np_graft_step(c, g, diag)
+    gs = gs.reshape(-1)
+    if step < t['start']:
+      if not np.allclose(u, -LR * gs, rtol=1e-3, atol=1e-7):
+        return f'step {step} < start: update {u[:4]} is not the graft step {(-LR * gs)[:4]}'
+      continue
+    nu, n0, ng = np.linalg.norm(u), np.linalg.norm(u0), np.linalg.norm(-LR * gs)
+    if n0 > 0:
+      cosv = float(u @ u0) / (nu * n0 + 1e-300)
+      if cosv < 1 - 1e-4:
+        return f'step {step}: update not parallel to the preconditioned gradient (cos={cosv})'
+      if abs(nu - ng) > 1e-3 * ng + 1e-9:
+        return f'step {step}: update norm {nu} != graft step norm {ng}'
+  return None
+
+
 def confirm(t):
   if t['kind'] == 'ds':
-    if t['mode'] == 'compressed':
+    if t['mode'] in ('compressed', 'fd'):
       import subprocess, sys, os
       # fresh process: the low-rank stub patched the module in this one
       code = ('import json,sys; from vp.props import c05; t=json.loads(sys.argv[1]); '
@@ -310,10 +373,10 @@ def run(rep):
     pass
   rep.bounds = dict(tasks=len(ts), graft_types=dsh.GRAFTS[:-1], shapes=sorted({str(tuple(t['shape'])) for t in ts}),
                     modes=sorted({t.get('mode', t['kind']) for t in ts}), step_counter='symbolic', history='one step from arbitrary state')
-  rep.stubs = ['matrix_inverse_pth_root -> ROOT/ERR uninterpreted functions', '_low_rank_root -> generic uninterpreted function (compressed mode)',
+  rep.stubs = ['matrix_inverse_pth_root -> ROOT/ERR uninterpreted functions', '_low_rank_root / _fd_update_root -> generic uninterpreted functions (compressed and frequent-directions modes)', 'int16-quantized mode: pmap trace (axis_env D=1), exact round-half-even',
                'eigh -> fresh outputs memoised per input (tearfree)']
   rep.assumptions = ['exact real arithmetic', 'Euclidean norm is homogeneous (|c x| = |c| |x|): norm equality follows from N2',
                      'sqrt uninterpreted with per-term axioms']
-  rep.outside = ['float rounding', 'FD-sketched and int16-quantized preconditioner modes in Distributed Shampoo (need pmap / FD stubs; see DESIGN)',
+  rep.outside = ['float rounding',
                  'AdaFactor graft internals (optax)']
   run_tasks('vp.props.c05', 'work', ts, report=rep)
